@@ -35,6 +35,9 @@ def tdiv(a, b):
 
 def check(toks, resp, mode, build):
     op = toks[0]
+    if op == "consts":
+        want = "K V 0 0 V 1 0 V -1 0 V 2 0 V 10 0 V %d 0 V %d 0 V 1 18 V 0 0" % (M, -M)
+        return ("ok" if resp.raw == want else "viol"), "consts", False, want
     if op == "nt_radix":
         radix = int(toks[1])
         s = E.unhex(toks[2])
@@ -90,7 +93,7 @@ def check(toks, resp, mode, build):
 
 
 def constructed(rng):
-    out = []
+    out = ["consts"]
     for k in range(39):
         for d in (-1, 0, 1):
             c = P10[k] + d
